@@ -1,14 +1,369 @@
 /-
-  Driver.C13 — line protocol front end for property C13 (stub: not built yet).
+  Driver.C13 — line protocol for tensor transformations, equality and similarity.
+
+    @ t <shape> <data>                         Tensor::from                 → ok | panic(explicit)
+    reorder <names> src=<S> form=alloc|mut|lazy                             → shape=… data=… | panic(explicit)
+    transpose <names> src=<S> form=alloc|mut|lazy
+    reshape <shape> form=mut|owned
+    rename <names> src=<S> form=mut|owned|view
+    map src=<S> form=alloc|mut                 x ↦ 3x+1
+    mapi src=<S> form=alloc|mut                (idx, x) ↦ 1000x + code idx
+    zip <shape2> <data2> src=<S> rsrc=<S> idx=0|1
+    first src=<S>      scalar src=<S>                                       → <value>
+    into_matrix                                                             → rows=… cols=… data=…
+    from_matrix <rows> <cols> <data> <rowname> <colname>                    → shape=… data=… | err | panic(..)
+    eq <shape2> <data2> src=<S> rsrc=<S> via=tt|tv|vt|vv                    → true | false
+    similar <shape2> <data2> src=<S> rsrc=<S> via=…                         → true | false
+
+  <S> (which source the operation is applied to):  t  the Tensor itself (Tensor::… methods),
+  v  TensorView<&Tensor>,  a:<names>  TensorView<TensorAccess>,  x:<names>  TensorView<TensorTranspose>,
+  r:<names>  TensorView<TensorRename>.  <data> is a comma list or `i<start>x<count>`.
+
+  The answer before `##` is the *specification's* (Spec/Transform.lean: value of the lazy view,
+  equality of values, ∃ ordering); the code-shaped model's answer (Model/Transform.lean) must be
+  the same, otherwise the line says MODEL-SPEC-DISAGREE.  For in-place mapping through a view the
+  `aux` part carries the underlying tensor's data afterwards.
 -/
+import EasyMl.Model.Transform
+import EasyMl.Spec.Transform
 import Driver.Parse
 
 namespace Driver.C13
+open EasyMl Driver
 
-abbrev State := Unit
+abbrev T := Tensor String Nat
+abbrev V := TView String Nat
+abbrev LV := Spec.LazyView String Nat
 
-def init : State := ()
+structure State where
+  tensor : Option T := none
 
-def step (s : State) (_toks : List String) : State × String := (s, "unimplemented")
+def init : State := {}
+
+def both (spec model : String) : String :=
+  if spec = model then spec else s!"{spec} ## MODEL-SPEC-DISAGREE {model}"
+
+def parseData (s : String) : Option (List Nat) :=
+  if s.startsWith "i" then
+    match (s.drop 1).toString.splitOn "x" with
+    | [a, n] =>
+      match a.toNat?, n.toNat? with
+      | some a, some n => some ((List.range n).map (· + a))
+      | _, _ => none
+    | _ => none
+  else parseNatList s
+
+def showVal (shape : List (String × Nat)) (data : List Nat) : String :=
+  s!"shape={showShape shape} data={showNats data}"
+
+def showTVal (v : Spec.TVal String Nat) : String := showVal v.shape v.elems
+
+def showT (t : T) : String := showVal t.shape t.data
+
+def showOut (o : Outcome T) : String := showOutcome showT o
+
+/-! element functions used by map / mapi / zip (the harness uses the same) -/
+def mapF (x : Nat) : Nat := 3 * x + 1
+def code (idx : List Nat) : Nat := idx.foldl (fun acc i => acc * 7 + i + 1) 0
+def mapiF (idx : List Nat) (x : Nat) : Nat := 1000 * x + code idx
+def zipF (x y : Nat) : Nat := 1000 * x + y
+def zipiF (idx : List Nat) (x y : Nat) : Nat := (1000 * x + y) * 10000000 + code idx
+
+/-! sources -/
+
+inductive Src where
+  | tensor | view
+  | access (names : List String)
+  | transpose (names : List String)
+  | rename (names : List String)
+
+def parseSrc (s : String) : Option Src :=
+  if s = "t" then some .tensor
+  else if s = "v" then some .view
+  else if s.startsWith "a:" then some (.access (parseNames (s.drop 2).toString))
+  else if s.startsWith "x:" then some (.transpose (parseNames (s.drop 2).toString))
+  else if s.startsWith "r:" then some (.rename (parseNames (s.drop 2).toString))
+  else none
+
+def srcArg (key : String) (toks : List String) : Option Src :=
+  match optArg key toks with
+  | some s => parseSrc s
+  | none => some .tensor
+
+/-- the code-shaped source (`none` = constructing it panics) -/
+def modelSrc (t : T) : Src → Option V
+  | .tensor | .view => some t.view
+  | .access names => t.view.access names
+  | .transpose names => t.view.transposeView names
+  | .rename names =>
+    match t.view.renameView names with
+    | .ok v => some v
+    | .panic _ => none
+
+/-- the specification-level view -/
+def specSrc (t : T) : Src → Option LV
+  | .tensor | .view => some (Spec.ofData t.shape t.data)
+  | .access names =>
+    if decide (Spec.IsOrdering t.shape names) then some (Spec.reordered (Spec.ofData t.shape t.data) names)
+    else none
+  | .transpose names =>
+    if decide (Spec.IsOrdering t.shape names) then some (Spec.transposed (Spec.ofData t.shape t.data) names)
+    else none
+  | .rename names =>
+    if decide (names.Nodup) then some (Spec.renamed (Spec.ofData t.shape t.data) names) else none
+
+def isTensor : Src → Bool
+  | .tensor => true
+  | _ => false
+
+def panicS : String := "panic(explicit)"
+
+def specOr (o : Option (Spec.TVal String Nat)) : String :=
+  match o with
+  | some v => showTVal v
+  | none => panicS
+
+/-- the source tensor after an in-place map through a view of it -/
+def mapMutModel (t : T) (src : Src) (f : List Nat → Nat → Nat) : Option T :=
+  match src with
+  | .tensor | .view => some (t.mapMutWithIndex f)
+  | .access names | .transpose names =>
+    match t.indexBy names with
+    | some a => some (a.mapMutWithIndex f)
+    | none => none
+  | .rename names => if hasDuplicates names then none else some (t.mapMutWithIndex f)
+
+def viewOf (t : T) (src : Src) : Option V := modelSrc t src
+
+def stepOp (t : T) (toks : List String) : String :=
+  match toks with
+  | "reorder" :: namesS :: rest =>
+    let names := parseNames namesS
+    match srcArg "src" rest, optArg "form" rest with
+    | some src, form =>
+      let spec := match specSrc t src with
+        | none => panicS
+        | some sv =>
+          if decide (Spec.IsOrdering sv.shape names) then showTVal (Spec.materialise (Spec.reordered sv names))
+          else panicS
+      let model := match modelSrc t src with
+        | none => panicS
+        | some v =>
+          match form with
+          | some "mut" => if isTensor src then showOut (t.reorderMut names) else "bad-op"
+          | some "lazy" =>
+            match v.access names with
+            | some a => showVal a.shape a.iter
+            | none => panicS
+          | _ => if isTensor src then showOut (t.reorder names) else showOut (v.reorder names)
+      both spec model
+    | none, _ => "bad-op"
+  | "transpose" :: namesS :: rest =>
+    let names := parseNames namesS
+    match srcArg "src" rest, optArg "form" rest with
+    | some src, form =>
+      let spec := match specSrc t src with
+        | none => panicS
+        | some sv =>
+          if decide (Spec.IsOrdering sv.shape names) then showTVal (Spec.materialise (Spec.transposed sv names))
+          else panicS
+      let model := match modelSrc t src with
+        | none => panicS
+        | some v =>
+          match form with
+          | some "mut" => if isTensor src then showOut (t.transposeMut names) else "bad-op"
+          | some "lazy" =>
+            match v.transposeView names with
+            | some a => showVal a.shape a.iter
+            | none => panicS
+          | _ => if isTensor src then showOut (t.transpose names) else showOut (v.transpose names)
+      both spec model
+    | none, _ => "bad-op"
+  | "reshape" :: shapeS :: rest =>
+    match parseShape shapeS with
+    | some shape =>
+      let spec := if decide (Spec.Accepts shape t.data.length) then showVal shape t.data else panicS
+      let model := match optArg "form" rest with
+        | some "mut" => showOut (t.reshapeMut shape)
+        | _ => showOut (t.reshapeOwned shape)
+      both spec model
+    | none => "bad-op"
+  | "rename" :: namesS :: rest =>
+    let names := parseNames namesS
+    match srcArg "src" rest, optArg "form" rest with
+    | some src, form =>
+      let spec := match specSrc t src with
+        | none => panicS
+        | some sv =>
+          if decide names.Nodup then showTVal (Spec.materialise (Spec.renamed sv names)) else panicS
+      let model := match modelSrc t src with
+        | none => panicS
+        | some v =>
+          match form with
+          | some "view" =>
+            match v.renameView names with
+            | .ok r => showVal r.shape r.iter
+            | .panic k => s!"panic({k})"
+          | _ => if isTensor src then showOut (t.rename names) else "bad-op"
+      both spec model
+    | none, _ => "bad-op"
+  | "map" :: rest =>
+    match srcArg "src" rest, optArg "form" rest with
+    | some src, form =>
+      let spec := match specSrc t src with
+        | none => panicS
+        | some sv => showTVal (Spec.materialise (Spec.mapped mapF sv))
+      match modelSrc t src with
+      | none => both spec panicS
+      | some v =>
+        match form with
+        | some "mut" =>
+          match mapMutModel t src (fun _ x => mapF x) with
+          | none => both spec panicS
+          | some t' =>
+            -- the view of the mutated tensor, and (aux) the underlying data
+            match modelSrc t' src with
+            | some v' =>
+              let direct := if isTensor src then showNats (t.mapMut mapF).data else showNats t'.data
+              both spec (showVal v'.shape v'.iter) ++ s!" ## under={showNats t'.data} direct={direct}"
+            | none => both spec panicS
+        | _ => both spec (if isTensor src then showT (t.map mapF) else showOut (v.map mapF))
+    | none, _ => "bad-op"
+  | "mapi" :: rest =>
+    match srcArg "src" rest, optArg "form" rest with
+    | some src, form =>
+      let spec := match specSrc t src with
+        | none => panicS
+        | some sv => showTVal (Spec.materialise (Spec.mappedWithIndex mapiF sv))
+      match modelSrc t src with
+      | none => both spec panicS
+      | some v =>
+        match form with
+        | some "mut" =>
+          match mapMutModel t src mapiF with
+          | none => both spec panicS
+          | some t' =>
+            match modelSrc t' src with
+            | some v' => both spec (showVal v'.shape v'.iter) ++ s!" ## under={showNats t'.data}"
+            | none => both spec panicS
+        | _ => both spec (if isTensor src then showT (t.mapWithIndex mapiF) else showOut (v.mapWithIndex mapiF))
+    | none, _ => "bad-op"
+  | "zip" :: shapeS :: dataS :: rest =>
+    match parseShape shapeS, parseData dataS, srcArg "src" rest, srcArg "rsrc" rest with
+    | some shape2, some data2, some src, some rsrc =>
+      match Tensor.tryFrom shape2 data2 with
+      | none => "bad-op"
+      | some t2 =>
+        let withIdx := optArg "idx" rest == some "1"
+        let spec := match specSrc t src, specSrc t2 rsrc with
+          | some l, some r =>
+            if l.shape = r.shape then
+              showTVal (Spec.materialise
+                (Spec.zipped (if withIdx then zipiF else fun _ => zipF) l r))
+            else panicS
+          | _, _ => panicS
+        let model := match modelSrc t src, modelSrc t2 rsrc with
+          | some l, some r =>
+            if isTensor src then
+              showOut (if withIdx then t.elementwiseWithIndex zipiF r else t.elementwise zipF r)
+            else
+              showOut (if withIdx then l.elementwiseWithIndex zipiF r else l.elementwise zipF r)
+          | _, _ => panicS
+        both spec model
+    | _, _, _, _ => "bad-op"
+  | "first" :: rest =>
+    match srcArg "src" rest with
+    | some src =>
+      let spec := match specSrc t src with
+        | none => panicS
+        | some sv => match (Spec.materialise sv).elems.head? with
+          | some x => toString x
+          | none => panicS
+      let model := match modelSrc t src with
+        | none => panicS
+        | some v => showOutcome toString (if isTensor src then t.first else v.first)
+      both spec model
+    | none => "bad-op"
+  | "scalar" :: rest =>
+    match srcArg "src" rest with
+    | some src =>
+      let spec := match specSrc t src with
+        | none => panicS
+        | some sv => match (Spec.materialise sv).elems.head? with
+          | some x => toString x
+          | none => panicS
+      let model := match modelSrc t src with
+        | none => panicS
+        | some v => showOutcome toString (if isTensor src then t.first else v.scalar)
+      both spec model
+    | none => "bad-op"
+  | "into_matrix" :: _ =>
+    let spec := match t.shape with
+      | [r, c] => s!"rows={r.2} cols={c.2} data={showNats t.data}"
+      | _ => "bad-op"
+    let model := match t.intoMatrix with
+      | .ok m => s!"rows={m.rows} cols={m.columns} data={showNats m.data}"
+      | .panic k => s!"panic({k})"
+    both spec model
+  | ["from_matrix", rowsS, colsS, dataS, rname, cname] =>
+    match rowsS.toNat?, colsS.toNat?, parseData dataS with
+    | some rows, some cols, some data =>
+      match Matrix.fromFlatRowMajor rows cols data with
+      | none => "bad-op"
+      | some m =>
+        let shape := [(rname, rows), (cname, cols)]
+        let spec := if rname ≠ cname then showVal shape data else "err"
+        let model := match m.intoTensor rname cname with
+          | .ok (some t') => showT t'
+          | .ok none => "err"
+          | .panic k => s!"panic({k})"
+        both spec model
+    | _, _, _ => "bad-op"
+  | "roundtrip" :: _ =>
+    -- tensor -> matrix -> tensor with the same names gives the tensor back
+    match t.shape with
+    | [r, c] =>
+      let model := match t.intoMatrix with
+        | .ok m =>
+          match m.intoTensor r.1 c.1 with
+          | .ok (some t') => showT t'
+          | .ok none => "err"
+          | .panic k => s!"panic({k})"
+        | .panic k => s!"panic({k})"
+      both (showT t) model
+    | _ => "bad-op"
+  | kind :: shapeS :: dataS :: rest =>
+    if kind = "eq" || kind = "similar" then
+      match parseShape shapeS, parseData dataS, srcArg "src" rest, srcArg "rsrc" rest with
+      | some shape2, some data2, some src, some rsrc =>
+        match Tensor.tryFrom shape2 data2 with
+        | none => "bad-op"
+        | some t2 =>
+          match specSrc t src, specSrc t2 rsrc, modelSrc t src, modelSrc t2 rsrc with
+          | some sl, some sr, some ml, some mr =>
+            if kind = "eq" then
+              both (toString (decide (Spec.materialise sl = Spec.materialise sr)))
+                   (toString (tensorEquality ml mr))
+            else
+              both (toString (Spec.similarB sl sr)) (toString (tensorSimilarity ml mr))
+          | _, _, _, _ => panicS
+      | _, _, _, _ => "bad-op"
+    else "bad-op"
+  | _ => "bad-op"
+
+def step (s : State) (toks : List String) : State × String :=
+  match toks with
+  | ["@", "t", shapeS, dataS] =>
+    match parseShape shapeS, parseData dataS with
+    | some shape, some data =>
+      let t := Tensor.tryFrom shape data
+      ({ tensor := t },
+        both (if decide (Spec.Accepts shape data.length) then "ok" else panicS)
+             (if t.isSome then "ok" else panicS))
+    | _, _ => (s, "bad-op")
+  | _ =>
+    match s.tensor with
+    | none => (s, "no-tensor")
+    | some t => (s, stepOp t toks)
 
 end Driver.C13
